@@ -13,3 +13,15 @@ check("C14",
       TECH, "DESIGN.md section 3 C14")
 
 na("C18", "numerical values of 10^4-term cosine series, a 2^18-point FFT and norm.cdf (shape, positivity, agreement within tolerance) are not encodable in SMT within reach; see DESIGN.md section 5")
+
+check("C02",
+      "Bounded model checking of the real sampler constructors and single-uniform entry points on a symbolic probability vector and a symbolic "
+      "uniform: per construction path the solver proves that the Lebesgue measure of the uniforms sent to state k equals p_k (exact rational "
+      "arithmetic over all real p), that no uniform reaches a zero-probability or out-of-range state, that results do not depend on earlier draws "
+      "and that the batch entry equals the single-uniform entry. Right level: the law of a sampler is a statement about all u in [0,1) and all p; "
+      "a histogram test cannot see a wrong interval of length 1e-6 or a failure at ties/zeros/multiples of 1/256.",
+      "Trusted: z3/cvc5; the u-measure computation (leaf constraints affine in u with concrete coefficient, checked per constraint); Table method's "
+      "32-bit integer modelled as (low byte, independent uniform); exact arithmetic (float rounding of cumulative sums outside). Bounds: vector "
+      "length <= 3 quick / 4-5 thorough, Table slot-count patterns as listed in evidence, inversion on 1-d grids up to 2+3 states. Chain-level "
+      "samplers (adapted binary search trees on Levy models) are checked under C01's harness, see DESIGN.",
+      TECH, "DESIGN.md section 3 C02")
